@@ -41,7 +41,7 @@ PROPERTIES = {
         "explanation": "proved: stack / concatenate without align (labels, by-name placement of every cell, refusal of differing labels, no metadata, inputs untouched); bounded stand-in: align=True (composition with align, which is proved under C06).",
     },
     "C04": {
-        "contracts": [arith.ScalarOperation, arith.Operation,
+        "contracts": [arith.ScalarOperation, arith.UnaryOperation, arith.Operation,
                       # the label SET of the common axis (union, each label once) is decided by the functions align calls:
                       (axes.AxisUnion, r"-ff-|-if-"), axes.CommonAxis,
                       # Operation is proved AGAINST reindex_axis' contract (a callee): a change inside reindex_axis is noticed only by
